@@ -84,6 +84,17 @@ func unfoldN(c cval, d int) cval {
 					continue
 				}
 				return c
+			case *ssa.IndexAddr:
+				// element k of a local array literal (got := [2]uint64{a, b}; got[0])
+				if al, isAl := a.X.(*ssa.Alloc); isAl {
+					if k, isK := constInt(a.Index); isK {
+						if ev := arrayLitElem(al, k); ev != nil {
+							c.v = ev
+							continue
+						}
+					}
+				}
+				return c
 			}
 			return c
 		case *ssa.Field:
@@ -464,4 +475,89 @@ func samePairSource(num, hash cval) bool {
 	}
 	l0, l1 := strings.ToLower(ch0[len(ch0)-1].Name()), strings.ToLower(ch1[len(ch1)-1].Name())
 	return (l0 == "number" || l0 == "num") && l1 == "hash"
+}
+
+// arrayLitElem: the value stored into element k of a local array that is only written
+// element by element with constant indices, once each, and never handed out.
+func arrayLitElem(al *ssa.Alloc, k int64) ssa.Value {
+	if _, isArr := al.Type().Underlying().(*types.Pointer).Elem().Underlying().(*types.Array); !isArr {
+		return nil
+	}
+	var val ssa.Value
+	n := 0
+	for _, ref := range *al.Referrers() {
+		switch r := ref.(type) {
+		case *ssa.IndexAddr:
+			idx, isK := constInt(r.Index)
+			for _, rr := range *r.Referrers() {
+				switch s := rr.(type) {
+				case *ssa.Store:
+					if s.Addr != ssa.Value(r) {
+						return nil
+					}
+					if !isK {
+						return nil // written through a computed index
+					}
+					if idx == k {
+						n++
+						val = s.Val
+					}
+				case *ssa.UnOp, *ssa.DebugRef:
+				default:
+					return nil
+				}
+			}
+		case *ssa.DebugRef, *ssa.UnOp:
+		case *ssa.Slice:
+			return nil
+		default:
+			return nil
+		}
+	}
+	if n != 1 {
+		return nil
+	}
+	return val
+}
+
+// deepUnfold: unfold, also entering accessor calls (repo functions with one return).
+func deepUnfold(c cval) cval {
+	for i := 0; i < 6; i++ {
+		c = unfold(c)
+		c.v = stripNum(c.v)
+		if _, isCall := c.v.(*ssa.Call); isCall {
+			if in, ok := unfoldGetter(c); ok {
+				c = in
+				continue
+			}
+		}
+		break
+	}
+	c.v = stripNum(c.v)
+	return c
+}
+
+// affOfC: the affine form of an integer expression that may be spread over accessors
+// (want.last() = s.start + s.limit - 1 with want = span{start, limit}).
+func affOfC(aff *affEnv, c cval, d int) lin {
+	u := deepUnfold(c)
+	if d < 8 {
+		switch x := u.v.(type) {
+		case *ssa.BinOp:
+			switch x.Op {
+			case token.ADD:
+				return affOfC(aff, u.with(x.X), d+1).add(affOfC(aff, u.with(x.Y), d+1))
+			case token.SUB:
+				return affOfC(aff, u.with(x.X), d+1).sub(affOfC(aff, u.with(x.Y), d+1))
+			}
+		case *ssa.Const:
+			if k, ok := constInt(x); ok {
+				return konst(k)
+			}
+		}
+	}
+	if u.top() {
+		return aff.Of(u.v)
+	}
+	return aff.Of(c.v)
 }
